@@ -12,7 +12,7 @@ def sh(cmd, cwd=None, timeout=900):
     return p.returncode, (p.stdout + p.stderr)[-3000:]
 
 def main(pid, x):
-    src = '/tmp/wt/%s/_mutant/%s' % (pid, x)
+    src = "%s/%s/_mutant/%s" % (os.environ.get("MUT_ROOT", "/tmp/wt"), pid, x)
     name = '%s-%s' % (pid, x)
     wt = tempfile.mkdtemp(prefix='confirm-%s-' % name, dir='/tmp')
     os.rmdir(wt)
